@@ -321,3 +321,49 @@ def solutions_assemble_a_continuous_chain():
                 prove(tag + ":joint-%d-at-the-depth-where-the-group-ends" % k, eq(built[k][2][2], zs[cum]))
                 prove(tag + ":joint-%d-horizontal-position" % k, And(eq(built[k][2][0], p0[0] + r_cum * cos(phi)),
                                                                      eq(built[k][2][1], p0[1] + r_cum * sin(phi))))
+
+
+# ---------------------------------------------------------------------------
+# bounded stand-in with replayable inputs: the uniform tracer's reflected paths against image geometry, for end points
+# given as Python ints, numpy ints or floats (numpy's dtype handling of the end points is outside the real-number model)
+# ---------------------------------------------------------------------------
+
+@harness(clause="bounded-uniform-geometry", bounded=40, label="B")
+def uniform_reflected_paths_against_image_geometry_sampled():
+    top, bottom = 0.0, -real("ice_thickness", 500, 3000)
+    ice = new("pyrex.ice_model.UniformIce", real("index", 1.2, 1.9), valid_range=(bottom, top), index_above=1.0, index_below=1.0)
+    as_int = integer("integer_end_points", 0, 2)
+    p = [real("x0", -400, 400), real("y0", -400, 400), -real("depth0", 1, 499)]
+    q = [real("x1", -400, 400), real("y1", -400, 400), -real("depth1", 1, 499)]
+    if as_int >= 1:
+        p = [int(round(v)) for v in p]                       # a source given in whole metres (Python ints)
+    if as_int == 2:
+        p = np.array(p)                                      # ... or as an integer numpy array
+    tracer = new("pyrex.ray_tracing.UniformRayTracer", p, q, ice_model=ice)
+    n_ref = integer("reflections", 1, 2)
+    first = 1 if real("first_leg", -1, 1) >= 0 else -1
+    path = tracer._reflected_path(n_ref, first)
+    pts = [np.asarray(x, dtype=float) for x in path._points]
+    pf, qf = np.asarray(p, dtype=float), np.asarray(q, dtype=float)
+    rho = float(np.hypot(qf[0] - pf[0], qf[1] - pf[1]))
+    # vertical travel of the unfolded (mirrored) straight line
+    legs_z = [(top - pf[2]) if first == 1 else (pf[2] - bottom)]
+    legs_z += [top - bottom] * (n_ref - 1)
+    last = first * (-1) ** n_ref
+    legs_z.append((qf[2] - bottom) if last == 1 else (top - qf[2]))
+    S = float(sum(legs_z))
+    want_len = float(np.sqrt(rho * rho + S * S))
+    prove("starts-and-ends-at-the-end-points", bool(np.allclose(pts[0], pf, atol=1e-9) and np.allclose(pts[-1], qf, atol=1e-9)))
+    ok_z, ok_line = True, True
+    side = first
+    run = 0.0
+    for k in range(1, n_ref + 1):
+        ok_z = ok_z and abs(pts[k][2] - (top if side == 1 else bottom)) <= 1e-9
+        run += legs_z[k - 1]
+        want_xy = pf[:2] + (qf[:2] - pf[:2]) * run / S
+        ok_line = ok_line and bool(np.allclose(pts[k][:2], want_xy, atol=1e-6))
+        side = -side
+    prove("reflection-points-lie-on-the-boundaries", ok_z)
+    prove("reflection-points-divide-the-horizontal-separation-like-the-unfolded-straight-line", ok_line)
+    prove("path-length-is-that-of-the-unfolded-straight-line", abs(path.path_length - want_len) <= 1e-9 * want_len)
+    prove("tof-is-n-L-over-c", abs(path.tof - ice.index(-1.0) * want_len / 299792458.0) <= 1e-9 * path.tof)
